@@ -101,3 +101,10 @@ Example C22_catch_up_nonvacuous :
     m_heads m = [] /\ receive_sync_message ex_dW fresh_state m = Ok (ex_dW, sW') /\
     build ex_query ex_dW sW' = Some b /\ b_hashes b = [22].
 Proof. do 4 eexists. repeat split; vm_compute; reflexivity. Qed.
+
+Example C22_reset_clears_sent_hashes_nonvacuous :
+  exists s', receive_sync_message ex_dW
+      (mkSS [] [22] (Some [11]) (Some []) (Some []) [22] true true None false true false)
+      (mkMsg [11] [] [mkHave [] [11]] None (Some 5)) = Ok (ex_dW, s') /\
+    sent_hashes s' = [] /\ peer_read_only s' = false.
+Proof. eexists. repeat split; vm_compute; reflexivity. Qed.
